@@ -1,10 +1,12 @@
 import Knut.Driver.C04
 import Knut.Driver.Balance
 import Knut.Model.Weights
+import Knut.Spec.PortfolioPeriodSpec
 /-! Driver ops for C20: the exact-arithmetic models of `knut portfolio returns` and `knut portfolio weights`.
 
 ```
 returns <flags> <journal>  → ok <day>:<num/den | undef>(,…)* | ok - | error <class> | panic <site>
+calm <flags> <journal>     → ok <day>:<0|1>(,…)* | ok -      per period end: do the hypotheses of the 0 %-clause hold (`calmPeriods`)?
 weights <flags> <journal>  → ok undefined | ok <flagsOut>;<day,day,…|->;<row>(|<row>)*    row := <depth>~<name hex>~<cell>(,<cell>)*   cell := - | num/den
 flags := key=value(;key=value)*   keys: val from to last iv acc com map sort uni
 uni   := <commodity hex>:<segment hex>/<segment hex>/…(,…)*        (the path includes the commodity name)
@@ -72,6 +74,13 @@ def handle (fields : List String) : Option String :=
           ((lines.zip (cond ++ List.replicate lines.length false)).map (fun (l, c) => s!"{l.1}:{showOpt l.2}{if c then "!" else ""}")))
       | .error w => "error " ++ w
       | .panic s => "panic " ++ hexStr s
+    | none, _ => "bad-flags"
+    | _, none => "unsupported")
+  | ["calm", fl, j] => some (
+    match parseFlags fl, (parseJournal j).bind Knut.Driver.C04.toDirectives with
+    | some f, some ds =>
+      let cs := Performance.calmPeriods f.toFlags ds
+      "ok " ++ (if cs.isEmpty then "-" else String.intercalate "," (cs.map (fun c => s!"{c.1}:{if c.2 then "1" else "0"}")))
     | none, _ => "bad-flags"
     | _, none => "unsupported")
   | ["weights", fl, j] => some (
